@@ -471,9 +471,26 @@ func (p *Builder) label(name string) *gogen.Label {
 	return l
 }
 
+// twoValue marks the comma-ok forms: with two targets and a single index / type assertion /
+// receive expression a front end asks the operation for two values.
+func twoValue(targets int, es []*ex.E) {
+	if targets == 2 && len(es) == 1 && es[0] != nil {
+		switch e := es[0]; {
+		case e.K == ex.KIdx, e.K == ex.KAssert, e.K == ex.KUn && e.Tok == token.ARROW:
+			e.Lhs = 2
+		}
+	}
+}
+
 func (p *Builder) Stmt(s *S) {
 	cb := p.cb()
 	pkg := p.X.B.Pkg
+	switch s.K {
+	case KAssign:
+		twoValue(len(s.L), s.E)
+	case KDefine, KVar:
+		twoValue(len(s.Names), s.E)
+	}
 	switch s.K {
 	case KExpr:
 		p.X.Build(s.E[0])
